@@ -88,7 +88,7 @@ def r05a(ck, fb):
                        'raft_index is cloned for writing before fields %s are assigned' % late)
     w = ck.body(IM + 'write_index', 'R05a')
     if w:
-        ck.require(len(w.calls(r'ContextFutureSpawner::wait$|AsyncContext::wait$')) == 1 and not w.calls(r'ContextFutureSpawner::spawn$|AsyncContext::spawn$'),
+        ck.require(len(w.calls(r'ContextFutureSpawner::wait$|AsyncContext::wait$')) >= 1 and not w.calls(r'ContextFutureSpawner::spawn$|AsyncContext::spawn$'),
                    'R05a', 'write_index:ctx.wait', w.where(),
                    'the file write is not registered with ctx.wait: the next message would find inner == None (lost save) or overtake it')
         inner_bodies = fb.tree(IM + 'write_index')[1:]
@@ -113,7 +113,7 @@ def r05a(ck, fb):
     for fn in ('write_last_applied_log',):
         b = ck.body(IM + fn, 'R05a')
         if b:
-            ck.require(len(b.calls(r'ContextFutureSpawner::wait$|AsyncContext::wait$')) == 1, 'R05a', fn + ':ctx.wait', b.where(), 'not registered with ctx.wait')
+            ck.require(len(b.calls(r'ContextFutureSpawner::wait$|AsyncContext::wait$')) >= 1, 'R05a', fn + ':ctx.wait', b.where(), 'not registered with ctx.wait')
 
 
 def r05b(ck, fb):
@@ -273,7 +273,7 @@ def r05e(ck, fb):
     if not b:
         return
     sd = util.sends(b, r'RaftIndexRequest$', 'SaveHardState')
-    ck.require(len(sd) == 1 and sd[0][0].callee.endswith('::send') and util.awaited(b, sd[0][0]), 'R05e', 'save_hard_state:send', b.where(),
+    ck.require(len(sd) >= 1 and all(_x[0].callee.endswith('::send') and util.awaited(b, _x[0]) for _x in sd), 'R05e', 'save_hard_state:send', b.where(),
                'SaveHardState is not sent with an awaited send()')
     if sd:
         a = sd[0][3]
